@@ -62,6 +62,8 @@ def _worker(args):
     return stats, bad, mon
 
 
+ORDER_OF = {"C12": ("pq", "compare_func", "pqB"), "C07": ("holder", "holder_queue_check", "holderB"),
+            "C06": ("guard", "guard_queue_check", "guardB")}
 KNOWN_MATCH = []     # regexes of monitor messages that belong to listed known findings (set by run())
 
 
@@ -195,6 +197,19 @@ def run(chk, profiles, total_quick=1600, total_thorough=60000, variant="hook", e
                       "finds no violated clause in the implementation's log" % (d2["index"], d2["impl"], d2["model"], prop),
                       "\n".join(small), False)
         reported = True
+    if not proved and not reported and ORDER_OF.get(prop):
+        import ordercheck
+        order, gen_fn, spec_fn = ORDER_OF[prop]
+        pairs = []
+        if tgen_ok:
+            pairs, _ = ordercheck.lean_disagreements(gen_fn, spec_fn)
+        if not pairs:
+            pairs = ordercheck.grid_pairs()
+        r = ordercheck.replay_on_impl(order, pairs, vlib.build_impl("hook"))
+        if r:
+            chk.violation("the ordering function %s of the real queue differs from the documented order: the queue returns an entry "
+                          "that the documented order does not put first: %s" % (gen_fn, r[1]), r[0], True)
+            reported = True
     if not proved and not reported:
         errs = "\n".join(l for l in getattr(chk, "build_error", "").splitlines() if "error" in l)[:3000]
         probs = "\n".join(getattr(chk, "audit_result", {}).get("problems", []))
